@@ -637,13 +637,30 @@ class RDBStorage(BaseStorage, BaseHeartbeat):
                 if state == TrialState.RUNNING and trial.state != TrialState.WAITING:
                     return False
 
-                trial.state = state
-
+                # Change the state with a single conditional UPDATE so that the checks above and
+                # the write are atomic. ``SELECT ... FOR UPDATE`` does not lock the row on every
+                # RDB (e.g., SQLite), so another worker may have claimed or finished the trial
+                # after it was read.
+                updates: dict[str, Any] = {"state": state}
                 if state == TrialState.RUNNING:
-                    trial.datetime_start = datetime.now()
-
+                    updates["datetime_start"] = datetime.now()
+                    expected_states = [TrialState.WAITING]
+                else:
+                    expected_states = [TrialState.RUNNING, TrialState.WAITING]
                 if state.is_finished():
-                    trial.datetime_complete = datetime.now()
+                    updates["datetime_complete"] = datetime.now()
+                n_updated = (
+                    session.query(models.TrialModel)
+                    .filter(models.TrialModel.trial_id == trial_id)
+                    .filter(models.TrialModel.state.in_(expected_states))
+                    .update(updates, synchronize_session=False)
+                )
+                if n_updated == 0:
+                    if state == TrialState.RUNNING:
+                        return False
+                    raise optuna.exceptions.UpdateFinishedTrialError(
+                        "Trial#{} has already finished and can not be updated.".format(trial.number)
+                    )
         except sqlalchemy_exc.IntegrityError:
             return False
         return True
